@@ -31,6 +31,7 @@ mod c08;
 mod c11;
 mod c11case;
 mod c12;
+mod widedoc;
 
 use std::path::PathBuf;
 
